@@ -49,6 +49,11 @@ COMPONENTS = {"real": ["geomdl BSpline/NURBS objects, operations.insert_knot/rem
 TOL = 1e-7
 
 
+# (a, L) of un-normalised knot ranges [a, a + L]; a third of them straddle zero (0.0 is then a legal interior parameter)
+AL_PAIRS = [(-2.0, 4.0), (-1.0, 2.0), (-1.0, 4.0), (-2.0, 2.0), (0.0, 1.0), (0.0, 2.0), (1.0, 0.5), (3.5, 1.0), (-2.0, 0.5), (0.0, 4.0),
+            (1.0, 2.0), (-0.5, 1.0)]
+
+
 def prepare():
     shapes.G.load()
 
@@ -74,7 +79,7 @@ def gen(prop, stream, tier, avoid):
         spec["delta"] = rng.pick([0.5, 0.25, 0.2]) if kind != "curve" else rng.pick([0.25, 0.125, 0.1])
         if rng.chance(0.25) and "unnormalised" not in avoid:
             # knot vectors kept in their original range a + L*[0,1] (normalize_kv=False), a and L dyadic per direction
-            spec["aL"] = [[rng.pick([-2.0, 0.0, 1.0, 3.5]), rng.pick([0.5, 1.0, 2.0, 4.0])] for _ in range(nd_)]
+            spec["aL"] = [list(rng.pick(AL_PAIRS)) for _ in range(nd_)]
             spec["knots"] = [shapes.affine_knots(kv, a, L) for kv, (a, L) in zip(spec["knots"], spec["aL"])]
         if nd_ > 1 and rng.chance(0.12) and "unnormalised" not in avoid:
             # usage: ONE knot vector variable for every direction of a square patch (s.knotvector_u = kv; s.knotvector_v = kv),
@@ -126,6 +131,8 @@ def gen(prop, stream, tier, avoid):
             dirs = {}
             for d in rng.sample(range(nd), ndirs):
                 at = ["knot", rng.randrange(8)] if rng.chance(0.45) else ["new", rng.randint(1, 127)]
+                if objs[o].get("aL") and rng.chance(0.3):
+                    at = ["zero", at[1] if at[0] == "new" else rng.randint(1, 127)]      # parameter exactly 0.0 where the range straddles zero
                 dirs[str(d)] = {"at": at, "num": rng.pick([1, 1, 2, 2, 3, 4])}
             ops.append({"op": "insert", "obj": o, "via": rng.pick(["method", "operations"]), "dirs": dirs})
             if ops[-1]["via"] == "operations" and nd > 1 and rng.chance(0.45):
@@ -272,6 +279,10 @@ def _resolve_at(lv, d, at):
     if at[0] == "end":
         # an end of the domain: the clamped end knot has multiplicity degree + 1, nothing can be inserted there
         return (lv.knots[d][0] if at[1] == 0 else lv.knots[d][-1]), True
+    if at[0] == "zero":
+        if lv.knots[d][0] < 0.0 < lv.knots[d][-1]:
+            return 0.0, lv.mult(d, 0.0) > 0
+        return a + L * (at[1] / 128.0), False
     if at[0] == "knot":
         ik = lv.interior(d)
         if ik:
